@@ -139,6 +139,8 @@ func verifSetField(ptr interface{}, field string, v interface{})   {}
 func verifGetField(ptr interface{}, field string) interface{}      { return nil }
 func verifFieldPtr(ptr interface{}, field string) interface{}      { return nil }
 func verifRaceScope(ptr interface{}, label string)                 {}
+func verifParseIP(s string) []byte                                 { return nil }
+func verifParseCIDR(s string) (ip, mask []byte, ok bool)           { return nil, nil, false }
 `
 
 // Load loads the suite's packages from the repo working tree with the harness overlays.
